@@ -445,6 +445,29 @@ def check(model: Model, run: Run) -> None:
     )
     _r10_first_batch(model, run, folder)
 
+    # ------------------------------------------------------------------ R11 the cache holds the route that was queued
+    run.rule(
+        'C04.R11',
+        'Cache.update_cache records the route it is given: the store into self._seen is not skipped because the cached route '
+        '"equals" the new one - Route equality looks at the NLRI index and the attributes, not at the labels or the next hop, '
+        'so a re-announce that changes only those would be sent while the reported Adj-RIB-Out (and every replay) keeps the old one',
+        floor=1,
+    )
+    uc = model.func(CACHE + '.update_cache')
+    run.analysed(uc)
+    ucl = Loc(model, uc)
+    rp = uc.node.args.args[1].arg if len(uc.node.args.args) > 1 else '?'
+    stores = [n for n in walk_no_nested(uc.node) if isinstance(n, ast.Assign) and isinstance(n.targets[0], ast.Subscript) and 'self._seen' in ucl.expand(n.targets[0].value, depth=6) and ucl.expand(n.value) == rp]
+    if not stores:
+        run.cannot('Cache.update_cache: the store of the route into self._seen was not found')
+    for st in stores:
+        bad = None
+        for t, pol in flat_guards(uc.node, st):
+            for c in ast.walk(ucl.expanded(t, depth=6)):
+                if isinstance(c, ast.Compare) and isinstance(c.ops[0], (ast.Eq, ast.NotEq, ast.Is, ast.IsNot)) and any(isinstance(x, ast.Name) and x.id == rp for x in [c.left] + c.comparators):
+                    bad = t
+        run.check(bad is None, uc.qualname, 'the route is stored whatever the cache held (%s)' % ('no comparison with the cached route' if bad is None else 'guarded by ' + norm(bad)), uc.loc(st), 'Route.__eq__ / __ne__ ignore the label stack and Route.nexthop')
+
     # ------------------------------------------------------------------ R7 add_to_rib
     run.rule('C04.R7', 'add_to_rib queues unless the identical route is cached and force is false; del_from_rib hands the route\'s own nlri/attributes/index to the shared removal', floor=1)
     a = model.func(RIB + '.add_to_rib')
